@@ -730,7 +730,14 @@ pub fn driver_main(check: &dyn Check, tier: Tier, seed: u64, replay_idx: Option<
     let mut printed_known: HashSet<String> = HashSet::new();
     let mut real: Vec<(u64, Value)> = vec![];
     let mut known_hits: BTreeMap<String, u64> = BTreeMap::new();
+    let mut harness_errors: Vec<String> = vec![];
     for (idx, v) in &agg.violations {
+        if v["tags"].as_array().is_some_and(|t| t.iter().any(|x| x.as_str() == Some("harness"))) {
+            // the machinery itself failed (a helper process could not be started, a generated grammar
+            // was refused, ...): says nothing about the property; never reported as a violation
+            harness_errors.push(format!("case {idx}: {}: {}", v["kind"].as_str().unwrap_or(""), v["what"].as_str().unwrap_or("").chars().take(300).collect::<String>()));
+            continue;
+        }
         if let Some(k) = matches_known(&known, v) {
             *known_hits.entry(k.id.clone()).or_insert(0) += 1;
             if printed_known.insert(k.id.clone()) {
@@ -784,6 +791,7 @@ pub fn driver_main(check: &dyn Check, tier: Tier, seed: u64, replay_idx: Option<
     cov.insert("inconclusive".into(), json!(agg.inconclusive_n));
     cov.insert("inconclusive_samples".into(), json!(agg.inconclusive));
     cov.insert("known_finding_hits".into(), json!(known_hits));
+    cov.insert("harness_errors".into(), json!(harness_errors.iter().take(10).collect::<Vec<_>>()));
     cov.insert("suspects".into(), json!(suspects.iter().map(|(i, w)| json!({"case": i, "why": w})).collect::<Vec<_>>()));
     for (k, v) in check.extra_coverage(tier, &agg.counters) {
         cov.insert(k, v);
@@ -823,6 +831,10 @@ pub fn driver_main(check: &dyn Check, tier: Tier, seed: u64, replay_idx: Option<
     );
     if !real.is_empty() {
         return 1;
+    }
+    if !harness_errors.is_empty() {
+        println!("BROKEN-CHECK {id}: {} harness error(s), e.g. {}", harness_errors.len(), harness_errors[0]);
+        return 2;
     }
     if replay_idx.is_none() {
         if (agg.nontrivial.len() as u64) < check.floor(tier) {
